@@ -74,6 +74,15 @@ def op_lognormalMomentsCl (j : Json) : Json :=
   | some m, some s => optPair (lognormalMomentsCl m s) "logmean" "logstd"
   | _, _ => jErr "bad-args"
 
+/-- the same transcription with the Kahan-stable `log1p` (over ℝ the same function: `C30.lognormal_moments_stable`);
+    used for the extreme stream, where `log(1+v)` evaluated in Float has lost the digits `np.log1p` keeps -/
+def op_lognormalMomentsStable (cl : Bool) (j : Json) : Json :=
+  let f := fF? j
+  match f "mean", f "std" with
+  | some m, some s => optPair (if cl then lognormalMomentsClWith log1pStable m s else lognormalMomentsReWith log1pStable m s)
+      "logmean" "logstd"
+  | _, _ => jErr "bad-args"
+
 def op_lognormalPriorRe (j : Json) : Json :=
   let f := fF? j
   match f "mean", f "std", f "x" with
@@ -234,6 +243,8 @@ def handle (j : Json) : Json :=
   | some "normalInv" => op_normalInv j
   | some "lognormalMomentsRe" => op_lognormalMomentsRe j
   | some "lognormalMomentsCl" => op_lognormalMomentsCl j
+  | some "lognormalMomentsReStable" => op_lognormalMomentsStable false j
+  | some "lognormalMomentsClStable" => op_lognormalMomentsStable true j
   | some "lognormalPriorRe" => op_lognormalPriorRe j
   | some "lognormalInvPriorRe" => op_lognormalInvPriorRe j
   | some "lognormalTransformCl" => op_lognormalTransformCl j
